@@ -36,6 +36,7 @@ type Scenario struct {
 	Second  bool          `json:"second"` // attempt a second writer on the locked directory
 	Ids     []string      `json:"ids"`
 	NoClose bool          `json:"no_close"`
+	RootObs   bool        `json:"root_obs"` // observe a fresh reader after every root replacement
 	CloseLast bool        `json:"close_last"` // Close is called only when nothing else can run (background work completes)
 }
 
@@ -48,6 +49,10 @@ type Scheduler interface {
 // ---- seeded priority scheduler (PCT style) ----
 
 type PrioSched struct {
+	// LowProc is starved (chosen only when nothing else is parked) during
+	// steps LowFrom..LowTo: lets work pile up for it.
+	LowProc        string
+	LowFrom, LowTo int
 	Seed    int64
 	rng     *rand.Rand
 	prio    map[string]int
@@ -67,6 +72,19 @@ func NewPrioSched(seed int64, nchanges, horizon int) *PrioSched {
 func (p *PrioSched) Choose(step int, gates []*ctl.Gate) int {
 	if p.changes[step] {
 		p.prio = map[string]int{}
+	}
+	if p.LowProc != "" && step >= p.LowFrom && step <= p.LowTo {
+		var idx []int
+		for i, g := range gates {
+			if g.Proc != p.LowProc {
+				idx = append(idx, i)
+			}
+		}
+		if len(idx) > 0 {
+			bi := idx[p.rng.Intn(len(idx))]
+			p.Picks = append(p.Picks, gates[bi].Key)
+			return bi
+		}
 	}
 	best, bi := -1, 0
 	for i, g := range gates {
@@ -389,6 +407,7 @@ func Run(t *testing.T, scn Scenario, sched Scheduler, workDir string, uidBase *i
 		go func() { wg.Wait(); close(allDone) }()
 
 		step := 0
+		rootEvs := 0
 		for {
 			synctest.Wait()
 			// observe all held readers at this quiescent point
@@ -410,6 +429,17 @@ func Run(t *testing.T, scn Scenario, sched Scheduler, workDir string, uidBase *i
 				}
 			}
 			rmu.Unlock()
+			// a fresh reader after every root replacement, through the public API
+			if scn.RootObs && !closing.Load() {
+				if n := c.CountEv("IntroBatch", "IntroMerge", "IntroPersist"); n != rootEvs {
+					rootEvs = n
+					if r, err := s.W.Reader(); err == nil {
+						o := ctl.Observe(r, scn.Ids, true)
+						c.Log("RootObs", "obs", o)
+						_ = r.Close()
+					}
+				}
+			}
 			gs := c.Parked()
 			if len(gs) == 0 {
 				select {
